@@ -222,7 +222,7 @@ theorem mirror_loops_roundtrip_full {C : Codecs} {T : String → Prop} (hC : Law
       runU.go C s0 c.unmarshal = runU.go C s1 body ∧ relationsHold C sM.env sM.P.length 0 body = true ∧
       Agree (if c.isAndX then [andxField] else []) s1.env sM.env ∧
       (c.isAndX = true → (sM.env.get andxField).isSome = true) ∧ Recv (recvFields body) s1.env sM.env ∧
-      s1.wordCount = wordCountOf c.isAndX sM.P := by
+      s1.wordCount = wordCountOf c.isAndX sM.P ∧ s1.pad = 0 := by
     have hb := F.hbody
     unfold bodyU at hb
     cases ha : c.isAndX with
@@ -231,14 +231,14 @@ theorem mirror_loops_roundtrip_full {C : Codecs} {T : String → Prop} (hC : Law
       simp only [Bool.false_eq_true, if_false, Option.some.injEq] at hb
       subst hb
       exact ⟨s0, by simp [s0, axOf, ha, andxBytesOf], rfl, rfl, rfl, hrel, fun f hf => by simp at hf,
-        (fun h => by cases h), hsz0, by simp [s0, ha]⟩
+        (fun h => by cases h), hsz0, by simp [s0, ha], rfl⟩
     | true =>
       rw [ha] at hb haok hframe
       simp only [if_true] at hb
       obtain ⟨a, b, cc, dd, hax, hval⟩ := andxOk_decode env haok
       have h0 : s0.P = a :: b :: cc :: dd :: sM.P := by simp [s0, axOf, ha, hax]
       refine ⟨afterAndX s0 a b cc dd sM.P, rfl, rfl, rfl,
-        go_andx_prefix C a b cc dd sM.P c.unmarshal body s0 hb h0, ?_, ?_, fun _ => ?_, ?_, by simp [afterAndX, s0, ha]⟩
+        go_andx_prefix C a b cc dd sM.P c.unmarshal body s0 hb h0, ?_, ?_, fun _ => ?_, ?_, by simp [afterAndX, s0, ha], rfl⟩
       · rw [← relationsHold_splitAndX C sM.env sM.P.length c.unmarshal body 0 hb]; exact hrel
       · intro f hf
         have : f = andxField := by simpa using hf
@@ -248,7 +248,7 @@ theorem mirror_loops_roundtrip_full {C : Codecs} {T : String → Prop} (hC : Law
       · rw [hframe, hval]; rfl
       · show Recv (recvFields body) (env0.set andxField (andxVal a b cc dd)) sM.env
         exact hsz0.set_ne andxField _ (fun p hp => (F.range p hp).1)
-  obtain ⟨s1, h1P, h1D, h1o, hgo, hrelB, hag1, hseenA, hsz1, hwc1⟩ := hgo
+  obtain ⟨s1, h1P, h1D, h1o, hgo, hrelB, hag1, hseenA, hsz1, hwc1, hpad1⟩ := hgo
   have hwc : WcTells sM.env s1.wordCount u := by
     intro b w e f k hmem x hx
     have hbP : b = .P := by
@@ -275,7 +275,7 @@ theorem mirror_loops_roundtrip_full {C : Codecs} {T : String → Prop} (hC : Law
         rw [hD, hbD]
     · intro b hb; cases hb
   obtain ⟨d, hd, hseen, hagree⟩ := runU_go_layoutL hC sM.env sM.P.length _ _ body u {} _ s1 0 F.lu
-    F.ok hrelB hfitU hrestU hinv hag1 hsz1 hwc
+    F.ok hrelB hfitU hrestU hinv hag1 hsz1 hwc hpad1 (by rw [h1P])
   rw [h1P, h1D] at hagree
   have hdec : decodeCmd C c env0 (paramBlock c.isAndX (axOf c env) sM.P ++ dataBlock sM.D) = .ok d := by
     unfold decodeCmd
